@@ -6,6 +6,9 @@ import MosnVerif.Model.DispatchCtxSpec
 import MosnVerif.Lemmas.BufReuse
 import MosnVerif.Lemmas.HpackOrder
 import MosnVerif.Lemmas.StreamGen
+import MosnVerif.Lemmas.StreamGenPool
+import MosnVerif.Lemmas.H2ClientTable
+import MosnVerif.Lemmas.ProxyGen
 /-!
 # C02 — request/response correlation on an xprotocol client stream connection (property theorems only)
 
@@ -678,16 +681,53 @@ theorem notified_once (evs : List Ev) (k : Nat) :
   · exact Or.inl hg
   · exact Or.inr (h.gotOk k hg).2
 
-/- no_foreign_answer (FULL statement, not machine-checked in general): for every schedule, `(s.ex k).got = [j] → j = k`.
-It follows from destroy_hits_own_generation (a connection is idle in the pool only after the response of the exchange it
-was leased to has been read) together with the HTTP/1 / ping-pong pool theorems of C09 (an idle connection is leased to
-one exchange at a time); the composition is evaluated by the driver on every schedule of kind `sgen`, and proved here
-for the schedule family below only. -/
+/-- **the pool hypothesis**, stated in C09's vocabulary and DISCHARGED for every schedule: the idle list has no
+duplicates and holds only connections the pool made; an idle connection is leased to nobody (C09 `partition`); a
+connection is leased to ONE exchange at a time, from its `take` until its wrapper's DestroyStream (C09 `exclusive`); an
+idle or not yet dialled connection has no request in flight on it (C09 `idle_clean_always` / `lease_never_dirty`: what is
+leased again carries nothing of an earlier exchange). Proved by induction over the schedule for the pool as
+Model/StreamGen has it (LIFO idle list, give-back by the DestroyStream of the generation the pool client listens on); it
+needs `destroy_hits_own_generation` - with the seeded deliver-before-destroy order `excl` is false (witness below). -/
+theorem pool_hypothesis_holds (evs : List Ev) : PoolHyp (run realProg {} evs) := by
+  rw [wrapper_destroys_before_delivering]
+  exact (full_run evs {} full_init).pool
+
+/-- what is written on a connection and not answered yet is at most the request of its lease holder, and `conn.stream`
+points at that holder: the response read next on a connection is handed to the wrapper of the exchange that asked -/
+theorem wire_belongs_to_holder (evs : List Ev) (c j : Nat) :
+    let s := run realProg {} evs
+    j ∈ s.wire c → s.wire c = [j] ∧ s.slot c = some j ∧ (s.ex j).conn = c ∧ holds (s.ex j) := by
+  intro s hj
+  have h : Full s := by
+    show Full (run realProg {} evs)
+    rw [wrapper_destroys_before_delivering]
+    exact full_run evs {} full_init
+  have hw := h.wire.wireOk c j hj
+  have hs := h.inv.slotOk c j hw.2
+  exact ⟨hw.1, hw.2, hs.2.2, hs.2.1, Or.inl hs.1⟩
+
+/-- **no_foreign_answer** (FULL statement): for EVERY schedule `evs` - any interleaving of take / send / read / io /
+finish events of any number of exchanges over any number of pooled stream objects and connections, every hand-out order
+of the buffer pool - under the regenerated real order of the receiver wrapper: whatever exchange `k` is handed is the
+answer to its own request. (With `notified_once`: it is handed nothing or exactly `[k]`.) -/
+theorem no_foreign_answer (evs : List Ev) (k j : Nat) :
+    ((run realProg {} evs).ex k).got = [j] → j = k := by
+  rw [wrapper_destroys_before_delivering]
+  exact got_own _ (full_run evs {} full_init) k j
+
+/-- … in the form the driver evaluates: handed nothing, or exactly the own answer -/
+theorem got_nothing_or_own (evs : List Ev) (k : Nat) :
+    ((run realProg {} evs).ex k).got = [] ∨ ((run realProg {} evs).ex k).got = [k] := by
+  rcases notified_once evs k with h | h
+  · exact Or.inl h
+  · exact Or.inr (by rw [h, no_foreign_answer evs k _ h])
+
 def pipeline (n : Nat) : List Ev :=
   (List.range n).flatMap (fun k => [.take k 0, .send k, .read 0, .io k, .io k, .finish k])
 
+-- non-vacuity: a schedule in which every exchange IS answered (four exchanges through one object and one connection)
 set_option maxRecDepth 8000 in
-theorem no_foreign_answer_partial : ∀ k < 4, ((run realProg {} (pipeline 4)).ex k).got = [k] := by decide
+example : ∀ k < 4, ((run realProg {} (pipeline 4)).ex k).got = [k] := by decide
 
 /-- the witness schedule: A answered, notified; its worker finishes and recycles; B takes the same object on a new
 connection; the I/O goroutine goes on; C asks the pool; B and C write; B's answer arrives -/
@@ -706,6 +746,318 @@ example : let s := run [.deliver, .destroy] {} lateDestroy
     (∃ r ∈ s.log, r.ex = 0 ∧ r.genMade = 1 ∧ r.genHit = 2 ∧ r.gave = some 1 ∧ r.own = 0) ∧
     (s.ex 2).conn = (s.ex 1).conn ∧ (s.ex 2).got = [1] ∧ (s.ex 1).got = [] := by decide
 
+/-- … and the pool hypothesis is what breaks: B and C hold the same connection at the same time (`excl` fails) -/
+example : let s := run [.deliver, .destroy] {} (lateDestroy.take 10)
+    (s.ex 1).taken = true ∧ (s.ex 2).taken = true ∧ (s.ex 1).pc = none ∧ (s.ex 2).pc = none ∧
+    (s.ex 1).conn = (s.ex 2).conn ∧ s.wire (s.ex 1).conn = [1, 2] := by decide
+
 end StreamGenerations
 
+/-! ## The HTTP/2 client stream tables (kind `h2tbl`)
+
+Model/H2ClientTable: the module's table `MClientConn.streams` (what `HandleFrame` hands up) and the stream layer's table
+`clientStreamConnection.streams` (who is notified), ids from `MClientConn.newStream`. `Gen.H2ClientTable` regenerates every
+syntactic use of the two tables in the client types (closed world), the key expression of every insert / lookup / delete
+site as a function of the id the site has at hand, and every guard. All theorems quantify over every start value of the id
+counter and EVERY list of operations {request opened (with / without receiver), HEADERS / DATA / trailers / RST_STREAM /
+WINDOW_UPDATE with any stream id in any order, GOAWAY, local reset, connection reset, connection error}. -/
+section H2ClientTable
+open MosnVerif.Model.H2ClientTable MosnVerif.Model.H2ClientTableSpec MosnVerif.Gen.H2ClientTable
+
+/-- the state after an arbitrary operation list on a connection whose id counter started at `first` -/
+def h2reach (first : Int) (ops : List Model.H2ClientTable.Op) : Model.H2ClientTable.Conn :=
+  Model.H2ClientTable.run genShape (Model.H2ClientTable.init first) ops
+
+/-- closed world: these are ALL uses of the two tables in the methods of the client types, WriteHeaders allocates the id,
+writes HEADERS with it and registers the stream only after the write succeeded (all under cc.mu), ResetStream resets the
+module stream, removes the table entry, then notifies; the stream layer registers under the module's id, only after a
+successful write; a connection reset marks every stream before it resets it; the GOAWAY branch touches no stream -/
+theorem h2_table_sites :
+    tableSites = ["clientStreamConnection.OnEvent:range", "clientStreamConnection.ActiveStreamsNum:len",
+      "clientStreamConnection.Reset:range", "clientStreamConnection.handleFrame:lookup",
+      "clientStreamConnection.handleFrame:delete", "clientStreamConnection.handleFrame:delete",
+      "clientStreamConnection.handleError:lookup", "clientStream.endStream:insert", "clientStream.ResetStream:delete"] ∧
+    modTableSites = ["MClientConn.WriteHeaders:insert", "MClientConn.processSettings:range", "MClientConn.streamByID:lookup",
+      "MClientConn.streamByID:delete"] ∧
+    writeHeadersActs = [.alloc, .encode, .write, .failReturns, .insert] ∧ resetActs = [.moduleReset, .tableDelete, .notify] ∧
+    insertIdIsModuleId = true ∧ insertOnlyOnSuccess = true ∧ connResetMarksThenResets = true ∧ goawayTouchesStreams = false ∧
+    idInit = 1 := by decide
+
+/-- every insert / lookup / delete site of both tables uses the id it has at hand unchanged (the frame's stream id, the
+error's stream id, the stream object's own id), ids step by 2 in uint32, and every guard is the expected one: the
+regenerated shape IS the shape the theorems below are proved for -/
+theorem h2_shape : genShape = goodShape := by
+  simp only [genShape, goodShape, Shape.mk.injEq]
+  and_intros
+  all_goals first
+    | rfl
+    | (funext a; (set_option linter.unusedSimpArgs false in simp [newStreamId, Gen.H2ClientTable.u32, validStreamID, unknownDataIsConnError, goawayLast, errCodeNo, goawayActs, goawayOverrides]); done)
+    | (funext a b; (set_option linter.unusedSimpArgs false in simp [newStreamId, Gen.H2ClientTable.u32, validStreamID, unknownDataIsConnError, goawayLast, errCodeNo, goawayActs, goawayOverrides]); done)
+    | (funext a b; by_cases h : a = 0 <;> simp [goawayLast, errCodeNo, h])
+
+theorem h2_reach_inv (first : Int) (ops : List Model.H2ClientTable.Op) : HInv (h2reach first ops) := by
+  unfold h2reach; rw [h2_shape]; exact hinv_run _ (hinv_init first) ops
+
+/-- **delivery_once_and_own** (HTTP/2): every stream object is handed at most ONE outcome - one response or one reset
+notification, never both, never two - and every piece of a response it is handed (header, each body piece, trailer) came
+in a frame carrying its OWN stream id, the header being there: header and body never come from different exchanges -/
+theorem h2_delivery_once_and_own (first : Int) (ops : List Model.H2ClientTable.Op) (w : Nat) :
+    let s := h2reach first ops
+    (s.str w).got.length + (s.str w).resets.length ≤ 1 ∧ ∀ d ∈ (s.str w).got, Own (s.str w).id d := by
+  intro s
+  have h := h2_reach_inv first ops
+  exact ⟨h.once w, (h.own w).1⟩
+
+/-- the stream table is a finite map whose ids belong to registered, not yet answered stream objects; what the module
+table holds the stream table holds too, for a stream that is not destroyed -/
+theorem h2_tables_consistent (first : Int) (ops : List Model.H2ClientTable.Op) (k : Int) (w : Nat) :
+    let s := h2reach first ops
+    ((s.tbl.map (·.1)).Nodup) ∧
+    (lookup s.tbl k = some w → w < s.nW ∧ (s.str w).id = k ∧ (s.str w).got = []) ∧
+    (lookup s.mod k = some w → lookup s.tbl k = some w ∧ (s.str w).live = true) := by
+  intro s
+  have h := h2_reach_inv first ops
+  exact ⟨h.tkeys, fun hl => let t := h.tentry k w hl; ⟨t.1, t.2.1, t.2.2.1⟩, fun hl => let t := h.mentry k w hl; ⟨t.1, t.2.1⟩⟩
+
+/-- **unknown_dropped** (HTTP/2): in EVERY state, a HEADERS / DATA / trailers / RST_STREAM frame whose id the module table
+does not hold (never opened, already answered, reset) is delivered to nobody: no stream object's deliveries change, no
+id is allocated; a HEADERS frame changes nothing at all -/
+theorem h2_unknown_dropped (s : Model.H2ClientTable.Conn) (id : Int) (hm : lookup s.mod id = none)
+    (op : Model.H2ClientTable.Op) (hop : op.frameOn id) :
+    (∀ w, ((Model.H2ClientTable.step genShape s op).str w).got = (s.str w).got) ∧
+    (Model.H2ClientTable.step genShape s op).next = s.next ∧
+    (∀ tok e, id ≠ 0 → Model.H2ClientTable.step genShape s (.headers id tok e) = s) := by
+  rw [h2_shape]
+  have h := frame_no_entry s id hm op hop
+  refine ⟨fun w => (h.2.2.1 w).2.2 rfl, h.1, ?_⟩
+  intro tok e hne
+  unfold Model.H2ClientTable.step
+  split
+  · rfl
+  · simp only [onHeaders, hne, if_false]
+    rcases sb_cases s (G.modHeadersKey id) (G.modHeadersRemove e) with ⟨_, hsb⟩ | ⟨mw, hl, _⟩
+    · rw [hsb]
+    · have : G.modHeadersKey id = id := rfl
+      rw [this, hm] at hl; simp at hl
+
+/-- **late_reply_after_reset_dropped** (HTTP/2): once `ResetStream` ran on a stream whose request went out (timeout,
+downstream reset, RST_STREAM or stream error from the peer, connection reset), whatever happens afterwards short of a
+new request (`ops`), a frame carrying that stream's id is delivered to nobody -/
+theorem h2_late_reply_after_reset_dropped (s : Model.H2ClientTable.Conn) (w : Nat) (r : Reason)
+    (hcs : (s.str w).hasCs = true) (ops : List Model.H2ClientTable.Op) (hops : ∀ op ∈ ops, ∀ o, op ≠ .open_ o)
+    (op : Model.H2ClientTable.Op) (hop : op.frameOn (s.str w).id) :
+    let s1 := Model.H2ClientTable.run genShape (resetStream genShape s w r) ops
+    ∀ k, ((Model.H2ClientTable.step genShape s1 op).str k).got = (s1.str k).got := by
+  rw [h2_shape]
+  intro s1 k
+  have hm := mod_none_run _ _ (resetStream_mod_none s w r hcs) ops hops
+  exact ((frame_no_entry s1 _ hm op hop).2.2.1 k).2.2 rfl
+
+/-- **ids_distinct** (HTTP/2): the stream objects whose request went out carry ids in (0, 2^31), odd when the counter
+started odd (NewClientConn: 1), and two of them fewer than 2^31 requests apart carry different ids: no id is reused
+before the counter has left the valid range (after which no request goes out on the connection any more: see the
+example below) -/
+theorem h2_ids_distinct (first : Int) (ops : List Model.H2ClientTable.Op) (v w : Nat) :
+    let s := h2reach first ops
+    v < w → w < s.nW → (s.str v).hasCs = true → (s.str w).hasCs = true → w - v < 2147483648 →
+      (s.str v).id ≠ (s.str w).id ∧ 0 < (s.str v).id ∧ (s.str v).id < 2147483648 ∧
+      (first % 2 = 1 → (s.str v).id % 2 = 1) ∧
+      (first % 4294967296 + 2 * w < 4294967296 → (s.str v).id < (s.str w).id) := by
+  intro s hvw hw hv hw' hd
+  have h : IdInv s first := by
+    show IdInv (h2reach first ops) first
+    unfold h2reach; rw [h2_shape]; exact idinv_run _ first (idinv_init first) ops
+  have a := h.ids v (by omega)
+  have b := h.ids w hw
+  have va : G.valid (Model.H2ClientTable.idAt first v) = true := by rw [← a.1]; exact hv
+  have vb : G.valid (Model.H2ClientTable.idAt first w) = true := by rw [← b.1]; exact hw'
+  have ea := a.2; rw [if_pos va] at ea
+  have eb := b.2; rw [if_pos vb] at eb
+  have rv := valid_range _ (idAt_range first v) va
+  rw [ea, eb]
+  refine ⟨idAt_distinct first v w hvw hd, rv.1, rv.2, idAt_odd first v, ?_⟩
+  intro hlt
+  unfold Model.H2ClientTable.idAt; omega
+
+/-- **goaway_resets_only_above_last** (HTTP/2): a GOAWAY resets NOBODY and removes nothing (it records the
+last-stream-id and tells the pool); and when a stream that is not destroyed yet is reset later, for whatever reason
+`r`, its listeners are told `r` - except that exactly the streams with an id ABOVE the recorded last-stream-id are told
+ConnectionFailed (the request was not processed: retry). Every other stream object is untouched by that reset. -/
+theorem h2_goaway_resets_only_above_last (s : Model.H2ClientTable.Conn) (last code : Int) (w : Nat) (r : Reason) :
+    ((Model.H2ClientTable.step genShape s (.goaway last code)).str = s.str ∧
+     (Model.H2ClientTable.step genShape s (.goaway last code)).tbl = s.tbl ∧
+     (Model.H2ClientTable.step genShape s (.goaway last code)).mod = s.mod) ∧
+    ((s.str w).live = true →
+      ((resetStream genShape s w r).str w).resets =
+        (s.str w).resets ++ [if 0 < s.last ∧ s.last < (s.str w).id then Reason.connFailed else r] ∧
+      ∀ k, k ≠ w → (resetStream genShape s w r).str k = s.str k) := by
+  rw [h2_shape]
+  refine ⟨?_, resetStream_reason s w r⟩
+  unfold Model.H2ClientTable.step
+  split
+  · exact ⟨rfl, rfl, rfl⟩
+  · simp only [onGoAway]; split <;> exact ⟨rfl, rfl, rfl⟩
+
+/-- the executable predicates evaluated on the implementation's snapshots hold of every model state (ids: below 2^31
+stream objects per connection) -/
+theorem h2_spec_holds_on_model (first : Int) (ops : List Model.H2ClientTable.Op) :
+    obsSpec (obsOf (h2reach first ops)) = true ∧
+    ((h2reach first ops).nW ≤ 2147483648 →
+      obsSpecIds (first % 2 == 1) ((List.range (h2reach first ops).nW).map (fun w => ((h2reach first ops).str w).id)) = true) := by
+  refine ⟨obsSpec_of_hinv _ (h2_reach_inv first ops), ?_⟩
+  have h : IdInv (h2reach first ops) first := by
+    unfold h2reach; rw [h2_shape]; exact idinv_run _ first (idinv_init first) ops
+  exact obsSpecIds_of_idinv _ first h
+
+/-- **nobody is answered or failed by somebody else's frame** - the step predicates evaluated between consecutive
+snapshots of the implementation hold between consecutive model states: a HEADERS / DATA / trailers / RST_STREAM frame
+with stream id `id` that leaves the connection open changes the deliveries and reset notifications ONLY of stream
+objects registered under `id`; GOAWAY, WINDOW_UPDATE, SETTINGS and a new request change nobody's; a ResetStream of stream
+object w notifies only w and answers nobody; a connection reset / connection error answers nobody -/
+theorem h2_step_spec_holds_on_model (first : Int) (ops : List Model.H2ClientTable.Op) :
+    let s := h2reach first ops
+    (∀ id op, Model.H2ClientTable.Op.frameOn id op → (Model.H2ClientTable.step genShape s op).closed = false →
+      frameStepSpec id (obsOf s) (obsOf (Model.H2ClientTable.step genShape s op)) = true) ∧
+    (∀ op, ((∃ l c, op = .goaway l c) ∨ (∃ i, op = .window i) ∨ op = .noise ∨ (∃ o, op = .open_ o)) →
+      quietStepSpec (obsOf s) (obsOf (Model.H2ClientTable.step genShape s op)) = true) ∧
+    (∀ w, resetStepSpec (some w) (obsOf s) (obsOf (Model.H2ClientTable.step genShape s (.reset w))) = true) ∧
+    resetStepSpec none (obsOf s) (obsOf (Model.H2ClientTable.step genShape s .connReset)) = true ∧
+    resetStepSpec none (obsOf s) (obsOf (Model.H2ClientTable.step genShape s .connError)) = true := by
+  intro s
+  have h := h2_reach_inv first ops
+  rw [h2_shape]
+  exact ⟨fun id op hop hc => frameStepSpec_of s h id op hop hc, fun op hop => quietStepSpec_of s op hop, resetStepSpec_of s⟩
+
+/-! ### non-vacuity and what other shapes do -/
+-- three requests, answers interleaved frame by frame in another order, a duplicate END_STREAM, an unknown id, a trailer
+example : let s := h2reach 1 [.open_ false, .open_ false, .open_ false, .headers 5 2 false, .headers 1 0 false, .data 5 2 false false,
+      .headers 3 1 true, .headers 3 1 true, .data 1 0 false false, .headers 9 77 true, .data 5 2 true false, .trailers 1 0]
+    (s.str 0).got = [⟨some ⟨1, 0⟩, [⟨1, 0⟩], some ⟨1, 0⟩⟩] ∧ (s.str 1).got = [⟨some ⟨3, 1⟩, [], none⟩] ∧
+    (s.str 2).got = [⟨some ⟨5, 2⟩, [⟨5, 2⟩, ⟨5, 2⟩], none⟩] ∧ s.tbl = [] ∧ s.mod = [] ∧ s.closed = false := by decide
+-- timeout, then the late answer: dropped; RST_STREAM from the peer: the stream is told RemoteReset, a later DATA is dropped
+example : let s := h2reach 1 [.open_ false, .open_ false, .reset 0, .headers 1 0 false, .data 1 0 true false, .headers 3 1 false,
+      .rst 3, .data 3 1 true false]
+    (s.str 0).got = [] ∧ (s.str 0).resets = [.localReset] ∧ (s.str 1).got = [] ∧ (s.str 1).resets = [.remoteReset] ∧
+    s.rst = [1] ∧ s.closed = false := by decide
+-- GOAWAY(last = 3) in the middle resets nobody; the connection reset that follows tells 1 and 3 "terminated", 5 and 7 "failed: retry"
+example : let s := h2reach 1 [.open_ false, .open_ false, .open_ false, .open_ false, .goaway 3 0, .headers 1 0 true, .connReset]
+    (s.str 0).got = [⟨some ⟨1, 0⟩, [], none⟩] ∧ (s.str 0).resets = [] ∧ (s.str 1).resets = [.connTerm] ∧
+    (s.str 2).resets = [.connFailed] ∧ (s.str 3).resets = [.connFailed] ∧ s.goaways = 1 := by decide
+-- the 31-bit boundary: 2^31-1 is the last id that goes out; afterwards every request is refused and reset, none registered
+example : let s := h2reach 2147483645 [.open_ false, .open_ false, .open_ false, .open_ false]
+    (s.str 0).id = 2147483645 ∧ (s.str 1).id = 2147483647 ∧ (s.str 2).hasCs = false ∧ (s.str 2).resets = [.connFailed] ∧
+    (s.str 3).hasCs = false ∧ s.wire = [2147483645, 2147483647] ∧ s.goaways = 2 := by decide
+-- hypotheses of `h2_late_reply_after_reset_dropped` / `h2_unknown_dropped` are met by real states
+example : ((h2reach 1 [.open_ false]).str 0).hasCs = true ∧ lookup (h2reach 1 [.open_ false, .headers 1 0 true]).mod 1 = none := by decide
+
+/-- NEGATION WITNESS (lookup by `id-2`): the answer to the second request (id 3) is handed to the first (id 1) -/
+def lookupMinus2 : Shape := { goodShape with frameLookupKey := fun id => (id - 2) % 4294967296 }
+example : let s := Model.H2ClientTable.run lookupMinus2 (Model.H2ClientTable.init 1) [.open_ false, .open_ false, .headers 3 1 true]
+    (s.str 0).id = 1 ∧ (s.str 0).got = [⟨some ⟨3, 1⟩, [], none⟩] ∧ (s.str 1).got = [] := by decide
+/-- NEGATION WITNESS (RST_STREAM of stream k handed to stream k+2): the peer cancels request 1, request 3 is failed -/
+def rstPlus2 : Shape := { goodShape with errLookupKey := fun id => (id + 2) % 4294967296 }
+example : let s := Model.H2ClientTable.run rstPlus2 (Model.H2ClientTable.init 1) [.open_ false, .open_ false, .rst 1, .headers 3 1 true]
+    (s.str 0).resets = [] ∧ (s.str 1).resets = [.remoteReset] ∧ (s.str 1).got = [] := by decide
+/-- a ResetStream that does not remove the table entry: nobody is misdelivered (the module table still refuses the late
+answer), but the entry stays for ever: the refinement `h2_tables_consistent` fails -/
+def noDeleteOnReset : Shape := { goodShape with resetDeletes := fun _ => false }
+example : let s := Model.H2ClientTable.run noDeleteOnReset (Model.H2ClientTable.init 1) [.open_ false, .reset 0, .headers 1 0 true]
+    (s.str 0).got = [] ∧ s.tbl = [(1, 0)] ∧ s.mod = [] := by decide
+
+end H2ClientTable
+
+end MosnVerif.Props.C02
+
+/-! ## Pooled proxy objects: generation tags guarding late callbacks (builder c02g10; Model/ProxyGen, Gen.ProxyGen)
+
+One pooled `downStream` object with its whole history, any number of exchanges taking / giving it, any number of armed
+timer callbacks of any kind, EVERY schedule of {other object's newActiveStream, take, arm, fire (Stop is too late from
+here), one statement of a started callback, upstream answer, cleanStream's CAS + Stop, giveStream}. An exchange IS the
+generation it was given. The callbacks' statement lists are a parameter; the code's are regenerated. -/
+namespace MosnVerif.Props.C02
+section ProxyGenerations
+open MosnVerif.Model.ProxyGen MosnVerif.Lemmas.ProxyGen
+open MosnVerif.Gen.ProxyGen (Step)
+
+/-- the invariant holds along every schedule, for every family of guarded callback shapes -/
+theorem proxygen_invariant (progs : Nat → Bool × List Step) (hp : ∀ k, guarded (progs k).1 (progs k).2 = true)
+    (evs : List Ev) : MosnVerif.Lemmas.ProxyGen.Inv (run progs {} evs) := by
+  have h0 : MosnVerif.Lemmas.ProxyGen.Inv ({} : St) :=
+    ⟨Nat.le_refl _, fun _ => rfl, fun h => by simp at h, fun _ h => by simp at h, fun _ h => by simp at h,
+     fun _ h => by simp at h, fun _ h => by simp at h⟩
+  suffices ∀ s, MosnVerif.Lemmas.ProxyGen.Inv s → MosnVerif.Lemmas.ProxyGen.Inv (run progs s evs) from this _ h0
+  induction evs with
+  | nil => exact fun s h => h
+  | cons e r ih => exact fun s h => ih _ (step_inv progs hp s h e)
+
+/-- **late_callback_harmless**: whatever the interleaving of Stop, clean, give, take (by the next exchange, any number of
+times) and the callback's own statements: a callback armed for exchange A only ever resets the upstream stream of /
+produces an error reply for (`hits`) and only ever writes the response token / expiry flag of (`touched`) exchange A
+itself, and only while A still holds the object. (The one thing it may do to a later exchange B is clear B's
+reuseBuffer flag - B's buffers are then not recycled; that is the code's behaviour and is harmless for correlation.) -/
+theorem late_callback_harmless (progs : Nat → Bool × List Step) (hp : ∀ k, guarded (progs k).1 (progs k).2 = true)
+    (evs : List Ev) :
+    (∀ h ∈ (run progs {} evs).hits, h.hit = h.own ∧ h.held = true) ∧ (∀ t ∈ (run progs {} evs).touched, t.2 = t.1) :=
+  ⟨(proxygen_invariant progs hp evs).hits, (proxygen_invariant progs hp evs).touched⟩
+
+/-- **reply_produced_for_own_exchange**: every reply (the upstream's answer or a timeout error reply) is received by the
+exchange it was produced for -/
+theorem reply_produced_for_own_exchange (progs : Nat → Bool × List Step) (hp : ∀ k, guarded (progs k).1 (progs k).2 = true)
+    (evs : List Ev) : ∀ r ∈ (run progs {} evs).replies, r.2 = r.1 :=
+  (proxygen_invariant progs hp evs).replies
+
+/-- the two timer callbacks of the code (regenerated statement lists, generation read when armed) are guarded shapes -/
+theorem real_callbacks_guarded : ∀ k, guarded (realProgs k).1 (realProgs k).2 = true := by
+  intro k; cases k with
+  | zero => decide
+  | succ n => exact (by decide : guarded (realProgs 1).1 (realProgs 1).2 = true)
+
+/-- … so the statements above hold of the code's callbacks, for every schedule -/
+theorem late_timer_callbacks_harmless (evs : List Ev) :
+    (∀ h ∈ (run realProgs {} evs).hits, h.hit = h.own ∧ h.held = true) ∧
+    (∀ t ∈ (run realProgs {} evs).touched, t.2 = t.1) ∧ (∀ r ∈ (run realProgs {} evs).replies, r.2 = r.1) :=
+  ⟨(late_callback_harmless realProgs real_callbacks_guarded evs).1, (late_callback_harmless realProgs real_callbacks_guarded evs).2,
+   reply_produced_for_own_exchange realProgs real_callbacks_guarded evs⟩
+
+/-- the sites the model's `take` / `clean` / `give` stand for are as modelled: one fresh counter value per
+newActiveStream and reuseBuffer := 1, nobody else writes ID; cleanStream = CAS first, timers stopped BEFORE giveStream,
+giveStream last and the only Give; giveStream needs reuseBuffer = 1 and no reset; Reset zeroes the object; the worker
+task carries the generation read before it was scheduled and its re-entry points test it first -/
+theorem pool_sites_as_modelled :
+    MosnVerif.Gen.ProxyGen.newStreamFreshGen = true ∧ MosnVerif.Gen.ProxyGen.newStreamSetsReuse = true ∧
+    MosnVerif.Gen.ProxyGen.genWriters = 2 ∧
+    MosnVerif.Gen.ProxyGen.cleanOrder = [.casCleaned, .resetUpstream, .stopTimers, .destroyFilters, .delete, .give] ∧
+    MosnVerif.Gen.ProxyGen.cleanUpStopsTimers = true ∧
+    MosnVerif.Gen.ProxyGen.giveNeedsReuse = true ∧ MosnVerif.Gen.ProxyGen.giveNeedsNoReset = true ∧
+    MosnVerif.Gen.ProxyGen.givesElsewhere = 0 ∧ MosnVerif.Gen.ProxyGen.resetZeroes = true ∧
+    MosnVerif.Gen.ProxyGen.workerCaptures = true ∧ MosnVerif.Gen.ProxyGen.workerPassesGen = true ∧
+    MosnVerif.Gen.ProxyGen.processErrorTestsGen = true ∧ MosnVerif.Gen.ProxyGen.waitNotifyTestsGen = true ∧
+    MosnVerif.Gen.ProxyGen.onReentryExhaustedTestsGen = true := by decide
+
+/-- the racing schedule: A takes the object, arms timer `k`, the timer fires (callback started, nothing executed), A's
+answer arrives, A cleans (Stop too late) and gives, B takes the same object, then the callback runs `n` statements -/
+def lateSchedule (k n : Nat) : List Ev :=
+  [.take, .arm k, .fire 0, .respond, .clean, .give, .take] ++ List.replicate n (.step 0)
+
+-- non-vacuous: the code's callbacks DO act on their own exchange (a plain timeout), and on the racing schedule they act on nobody
+example : (run realProgs {} [.take, .arm 0, .fire 0, .step 0, .step 0, .step 0, .step 0, .step 0]).hits = [⟨1, 1, true⟩] := by decide
+example : (run realProgs {} [.tick, .take, .arm 1, .fire 0, .step 0, .step 0, .step 0, .step 0, .step 0, .step 0]).hits = [⟨2, 2, true⟩] := by decide
+example : (run realProgs {} (lateSchedule 0 8)).hits = [] ∧ (run realProgs {} (lateSchedule 0 8)).touched = [] ∧
+    (run realProgs {} (lateSchedule 0 8)).o.gen = 2 ∧ (run realProgs {} (lateSchedule 0 8)).o.reuse = false := by decide
+example : (run realProgs {} (lateSchedule 1 8)).hits = [] ∧ (run realProgs {} (lateSchedule 1 8)).replies = [(1, 1)] := by decide
+
+/-- NEGATION WITNESS (i): no generation test - A's callback takes B's response token and times B out -/
+example : (run (fun _ => (true, [.noReuse, .testCleaned, .casResp, .act])) {} (lateSchedule 0 4)).hits = [⟨1, 2, true⟩] ∧
+    guarded true [.noReuse, .testCleaned, .casResp, .act] = false := by decide
+/-- NEGATION WITNESS (ii): the generation is read when the callback FIRES - it reads B's and the test passes -/
+example : (run (fun _ => (false, [.loadGen, .noReuse, .testCleaned, .testGen, .casResp, .act])) {} (lateSchedule 0 6)).hits = [⟨1, 2, true⟩] ∧
+    guarded false [.loadGen, .noReuse, .testCleaned, .testGen, .casResp, .act] = false ∧
+    guarded true [.noReuse, .testCleaned, .loadGen, .testGen, .casResp, .act] = false := by decide
+/-- NEGATION WITNESS (iii): the test is there but the reuseBuffer store is not: the callback passes the test while A
+holds the object, A finishes and B takes the object before the CAS -/
+example : (run (fun _ => (true, [.testCleaned, .testGen, .casResp, .act])) {}
+      [.take, .arm 0, .fire 0, .step 0, .step 0, .respond, .clean, .give, .take, .step 0, .step 0]).hits = [⟨1, 2, true⟩] ∧
+    guarded true [.testCleaned, .testGen, .casResp, .act] = false := by decide
+
+end ProxyGenerations
 end MosnVerif.Props.C02
